@@ -699,6 +699,9 @@ def fam_c17(tier, seed):
                 for inp in ("json", "dsl"):
                     o = dict(s0["opts"], variant="mcp", input=inp)
                     sks.append(dict(s0, id=f"m{i}", opts=o)); i += 1
+                # quantities symbolic as well: a sale larger than the repurchase gives disposals of several legs
+                if s0["id"][0] == "t" and len(s0["lines"]) == 3 and s0["base"] == BASES[0]:
+                    sks.append(dict(s0, id=f"m{i}", opts=dict(s0["opts"], variant="mcp", input="json", mode="QPF"))); i += 1
     return sks
 
 
@@ -985,6 +988,11 @@ def fam_c16(tier, seed):
     big.append([["B", "VOD", 0], ["B", "BARC", 0], ["B", "LLOY", 0], ["B", "AZN", 0], ["S", "VOD", 1], ["S", "BARC", 1], ["S", "LLOY", 1], ["S", "AZN", 1]])
     for sh in big:
         sks.append(mk(i, "q", sh, base=b, wit=5, mode="")); i += 1
+    # quantities symbolic, so that the solver also takes the paths on which securities are sold completely (emptied pools
+    # stay in the holdings list of the JSON report and must still be in ticker order)
+    for sh in ([["B", "B", 0], ["B", "A", 0], ["S", "B", 1], ["S", "A", 1]],
+               [["B", "C", 0], ["B", "A", 0], ["B", "B", 0], ["S", "B", 1], ["S", "C", 1], ["S", "A", 30]]):
+        sks.append(mk(i, "z", sh, base=b, wit=5, mode="Q")); i += 1
     if tier == "thorough":
         # the two-security ledgers again with every numeric field symbolic (matcher forks x gain signs x map orders)
         for sh in sym_shapes[:4]:
